@@ -49,18 +49,30 @@ package metrics
 //@ ghostdecl otsStr int64
 //@ ghostdecl otsStrOk int
 //@ spec otsdbSec(t int64) uint32 = ite(uint64(t) >= 99999999999, uint32(t / 1000), uint32(t))
+// (C08: the value stored for a datapoint is the float the JSON number denotes —
+// what jsonparser's float parser returns for the bytes of the "value" field, not
+// a value that went through an integer on the way: -0 keeps its sign, an integer
+// literal beyond int64 keeps its magnitude.)  Ghost otsValParsed: the float
+// parser's result for this field.
+//@ ghostdecl otsValParsed float64
+//@ ghostdecl otsValOk int
 //@ func ExtractOTSDBPayload$1
-//@   props C16
+//@   props C16 C08
 //@   mode real
 //@   note the float timestamp path shares this closure; its float64 arithmetic is treated as exact real arithmetic (mode real) so that the integer paths, which are the ones claimed, are decidable; nothing is claimed about the float path
 //@   privatecaptures
-//@   ghostinit ghost(0, "otsIntOk") == 0 && ghost(0, "otsStrOk") == 0
+//@   ghostinit ghost(0, "otsIntOk") == 0 && ghost(0, "otsStrOk") == 0 && ghost(0, "otsValOk") == 0
 //@   site callret jp.ParseInt #1:
 //@     ghostset ghost(0, "otsInt") = result0
 //@     ghostset ghost(0, "otsIntOk") = ite(result1 == nil, 1, 0)
 //@   site callret strconv.ParseInt #1:
 //@     ghostset ghost(0, "otsStr") = result0
 //@     ghostset ghost(0, "otsStrOk") = ite(result1 == nil, 1, 0)
+//@   site callret jp.ParseFloat #2:
+//@     ghostset ghost(0, "otsValParsed") = result0
+//@     ghostset ghost(0, "otsValOk") = ite(result1 == nil, 1, 0)
+//@   site store dpVal #1:
+//@     assert [the-stored-value-is-what-the-float-parser-returned-for-the-value-field] ghost(0, "otsValOk") == 1 && feq(value, ghost(0, "otsValParsed"))
 //@   ensures [integer-timestamp-in-seconds] implies(ghost(0, "otsIntOk") == 1 && result == nil, *ts == otsdbSec(ghost(0, "otsInt")))
 //@   ensures [numeric-string-timestamp-in-seconds] implies(ghost(0, "otsStrOk") == 1 && result == nil, *ts == otsdbSec(ghost(0, "otsStr")))
 //@ end
@@ -415,9 +427,23 @@ package metrics
 // segment must not delete it — the other segments' appended entries would be
 // gone and, since only a new organisation re-creates it, logging would stop —
 // except at the forced rotation of a shutdown, when every segment is rotated.
+// C13 (one organisation's data never shows in another's answers): the
+// directory of a metrics segment is .../ts/<shard>/<suffix>/ — no organisation
+// in it, and shard ids are the same in every organisation — so only the shared
+// per-shard suffix counter keeps the segments of two organisations apart: the
+// suffix a rotated segment continues under is one that counter has just issued.
+// Ghosts sufIssued / sufValue: GetNextSuffix returned this value on this path.
+//@ ghostdecl sufIssued int
+//@ ghostdecl sufValue uint64
 //@ func (*MetricsSegment).rotateSegment
-//@   props C10
+//@   props C10 C13
 //@   assumecalleerequires
+//@   ghostinit ghost(0, "sufIssued") == 0
+//@   site callret suffix.GetNextSuffix #1:
+//@     ghostset ghost(0, "sufIssued") = ite(result1 == nil, 1, 0)
+//@     ghostset ghost(0, "sufValue") = result0
+//@   site store ms.Suffix #2:
+//@     assert [a-rotated-segment-continues-under-a-suffix-the-shared-counter-just-issued] ghost(0, "sufIssued") == 1 && value == ghost(0, "sufValue")
 //@   site call metricsMEntryWalState.wal.DeleteWAL #1:
 //@     assert [the-shared-metadata-wal-is-deleted-only-at-a-forced-rotation] forceRotate
 //@   site store metricsMEntryWalState.wal #1:
@@ -463,4 +489,24 @@ package metrics
 //@     invariant true
 //@   loop 3:
 //@     invariant true
+//@ end
+
+// C10 (restart replays the segment metadata whose append had completed): the
+// metadata WAL is REWRITTEN as a whole on every tick (Wal.Write replaces the
+// file), so the snapshot handed to it holds one entry for EVERY open metrics
+// segment — an idle segment included: leaving it out erases the entry appended
+// for it on earlier ticks.  Ghost mentrySegs: open segments at this tick.
+//@ ghostdecl mentrySegs int
+//@ func timeBasedMetaEntryWalFlush
+//@   props C10
+//@   assumecalleerequires
+//@   ghostinit ghost(0, "mentrySegs") == 0
+//@   site callret GetAllMetricsSegments #1:
+//@     ghostset ghost(0, "mentrySegs") = len(result)
+//@   loop 1:
+//@     invariant true
+//@   loop 2:
+//@     invariant [one-entry-per-open-segment-so-far] len(allMetaEntries) == rangeindex + 1 && rangeindex + 1 <= ghost(0, "mentrySegs")
+//@   site call metricsMEntryWalState.wal.Write #1:
+//@     assert [the-snapshot-holds-an-entry-for-every-open-segment] len(allMetaEntries) == ghost(0, "mentrySegs")
 //@ end
